@@ -4,7 +4,7 @@ copies /tmp/seed/<ID>.out/{patch.diff,demo*,NOTES.md,*.sh,*.js,*.go} to /verif/s
 import sys, os, shutil, json, glob
 pid, rnd, missed = sys.argv[1], sys.argv[2], sys.argv[3] == "1"
 parts = [x.strip() for x in " ".join(sys.argv[4:]).split(";;")]
-src = "/tmp/seed/%s.out" % pid
+src = os.environ.get("SEEDSRC") or "/tmp/seed/%s.out" % pid
 dst = "/verif/seeded/%s-r%s" % (pid, rnd)
 os.makedirs(dst, exist_ok=True)
 for f in glob.glob(src + "/*"):
